@@ -6,7 +6,7 @@
 set -uo pipefail
 S=${1:?scratch}
 MODE=${2:-quick}
-V=/verif
+V=$(cd "$(dirname "$(readlink -f "$0")")/.." && pwd)
 export GOFLAGS=-mod=mod GOPROXY=off GOSUMDB=off GOTOOLCHAIN=local
 fail() { echo "SELFTEST-FAIL: $*"; exit 2; }
 
